@@ -103,11 +103,38 @@ theorem wiresOf_ids (c : Cipher) (start : Nat) : ∀ (fs : List Frag) (n pos k :
       rw [ih (n + 1)]
       congr 1; omega
 
-/-- invariant of the sender: ids follow the log index; processing the whole log in order yields exactly `sent` -/
+/-- `Core.consume` never looks at sequence ids: the wires of the same fragments under other ids are consumed alike -/
+theorem consume_wiresOf_id (c : Cipher) : ∀ (fs : List Frag) (id id' pos : Nat) (r : Core),
+    Core.consume c r (wiresOf c id pos fs) = Core.consume c r (wiresOf c id' pos fs) := by
+  intro fs
+  induction fs with
+  | nil => intro _ _ _ _; rfl
+  | cons f fs ih =>
+    intro id id' pos r
+    by_cases hcl : r.closed = true
+    · rw [consume_closed c r _ hcl, consume_closed c r _ hcl]
+    · simp only [wiresOf, Core.consume, hcl, Bool.false_eq_true, if_false]
+      exact ih _ _ _ _
+
+theorem wiresLen_wiresOf_id (c : Cipher) : ∀ (fs : List Frag) (id id' pos : Nat),
+    wiresLen (wiresOf c id pos fs) = wiresLen (wiresOf c id' pos fs) := by
+  intro fs
+  induction fs with
+  | nil => intro _ _ _; rfl
+  | cons f fs ih => intro id id' pos; simp only [wiresOf, wiresLen]; rw [ih]
+
+/-- invariant of the sender: ids follow the log index; while the connection is open, processing the whole log and then the
+    fragments still to be emitted yields exactly `sent` (no partial message, cipher positions equal); after `disconnect()`
+    the log closes the receiver and yields a prefix of `sent` — all of it if no `send` was in progress -/
 structure SndInv (c : Cipher) (start : Nat) (s : Sender) : Prop where
   ids : ∀ j (h : j < s.log.length), (s.log[j]).id = idOf start j
   next : s.nextId = idOf start s.log.length
-  cons : Core.consume c core0 s.log = ⟨s.encPos, ⟨[], s.sent⟩, s.closing⟩
+  frs : ∀ f ∈ s.pending, f.data ≠ []
+  live : s.closing = false → Core.consume c core0 (s.log ++ wiresOf c s.nextId s.encPos s.pending) =
+    ⟨s.encPos + wiresLen (wiresOf c s.nextId s.encPos s.pending), ⟨[], s.sent⟩, false⟩
+  dead : s.closing = true → (Core.consume c core0 s.log).closed = true ∧
+    (Core.consume c core0 s.log).reasm.out <+: s.sent ∧
+    (s.clean = true → s.pending = [] ∧ Core.consume c core0 s.log = ⟨s.encPos, ⟨[], s.sent⟩, true⟩)
 
 theorem ids_append {start : Nat} {L N : List Wire} (hL : ∀ j (h : j < L.length), (L[j]).id = idOf start j)
     (hN : ∀ k (h : k < N.length), (N[k]).id = idOf start (L.length + k)) :
@@ -119,59 +146,171 @@ theorem ids_append {start : Nat} {L N : List Wire} (hL : ∀ j (h : j < L.length
     rw [List.getElem_append_right hj']
     rw [hN]; congr 1; omega
 
+theorem bool_false_of_not_true {b : Bool} (h : ¬ b = true) : b = false := by cases b <;> simp_all
+
+/-- while the connection is open the log alone has not closed the receiver -/
+theorem sndInv_log_open {c : Cipher} {start : Nat} {s : Sender} (h : SndInv c start s) (hcl : s.closing = false) :
+    (Core.consume c core0 s.log).closed = false := by
+  have hl := h.live hcl
+  rw [consume_append] at hl
+  cases hc : (Core.consume c core0 s.log).closed with
+  | false => rfl
+  | true =>
+    rw [consume_closed c _ _ hc] at hl
+    rw [hl] at hc; cases hc
+
+/-- what the whole log yields is a prefix of what the application passed to `send` -/
+theorem sndInv_out {c : Cipher} {start : Nat} {s : Sender} (h : SndInv c start s) :
+    (Core.consume c core0 s.log).reasm.out <+: s.sent := by
+  cases hcl : s.closing with
+  | true => exact (h.dead hcl).2.1
+  | false =>
+    have hl := h.live hcl
+    rw [consume_append] at hl
+    have := out_prefix c (wiresOf c s.nextId s.encPos s.pending) (Core.consume c core0 s.log)
+    rw [hl] at this
+    exact this
+
+/-- with no `send` in progress (and, after `disconnect()`, none in progress when it was called) the log yields exactly `sent` -/
+theorem sndInv_cons {c : Cipher} {start : Nat} {s : Sender} (h : SndInv c start s) (hp : s.pending = [])
+    (hcl : s.closing = false ∨ s.clean = true) :
+    Core.consume c core0 s.log = ⟨s.encPos, ⟨[], s.sent⟩, s.closing⟩ := by
+  cases hc : s.closing with
+  | false =>
+    have hl := h.live hc
+    rw [hp] at hl
+    simpa [wiresOf, wiresLen] using hl
+  | true =>
+    rcases hcl with h1 | h1
+    · rw [hc] at h1; cases h1
+    · exact ((h.dead hc).2.2 h1).2
+
+theorem consume_ping (c : Cipher) (r : Core) (id : Nat) : Core.consume c r [⟨id, .ping, []⟩] = r := by
+  by_cases hcl : r.closed = true
+  · exact consume_closed c r _ hcl
+  · simp [Core.consume, hcl]
+
 theorem sndInv_send (c : Cipher) (hc : CipherOk c) (size : Nat) (hs : 1 ≤ size) (start : Nat) (s : Sender)
     (m : Bytes) (h : SndInv c start s) : SndInv c start (s.send c size m) := by
   unfold Sender.send
-  by_cases hcl : s.closing = true
-  · simpa [hcl] using h
-  · have hcl' : s.closing = false := by cases hh : s.closing <;> simp_all
-    simp only [hcl, Bool.false_eq_true, if_false]
-    refine ⟨?_, ?_, ?_⟩
+  by_cases hg : (s.closing || !s.pending.isEmpty) = true
+  · simpa [hg] using h
+  · have hg' := bool_false_of_not_true hg
+    simp only [Bool.or_eq_false_iff, Bool.not_eq_false'] at hg'
+    have hcl' : s.closing = false := hg'.1
+    have hp : s.pending = [] := by simpa using hg'.2
+    simp only [hg, Bool.false_eq_true, if_false]
+    refine ⟨?_, ?_, ?_, ?_, ?_⟩
     · apply ids_append h.ids
       intro k hk
       have := wiresOf_ids c start (split size m) s.log.length s.encPos k (by rw [← h.next]; exact hk)
       simpa [h.next] using this
     · simp only [List.length_append]
       rw [h.next, iterSeq_idOf]
-    · show Core.consume c core0 (s.log ++ _) = _
-      rw [consume_append, h.cons, hcl']
+    · intro f hf; rw [hp] at hf; cases hf
+    · intro _
+      simp only [hp, wiresOf, wiresLen, List.append_nil, Nat.add_zero]
+      rw [consume_append, sndInv_cons h hp (Or.inl hcl'), hcl']
       rw [consume_wiresOf c hc _ _ _ _ (fun f hf => (split_sizes size hs m f hf).1)]
       rw [split_absorb size hs m]
       by_cases hm : m.isEmpty = true <;> simp [hm]
+    · intro hcl; rw [hcl'] at hcl; cases hcl
 
-theorem sndInv_ping (c : Cipher) (start : Nat) (s : Sender) (h : SndInv c start s) : SndInv c start s.ping := by
-  unfold Sender.ping
-  refine ⟨?_, ?_, ?_⟩
-  · apply ids_append h.ids
-    intro k hk
-    simp at hk; subst hk
-    simp [h.next]
-  · simp only [List.length_append, List.length_cons, List.length_nil]
-    rw [h.next]; unfold seqNext idOf; omega
-  · show Core.consume c core0 (s.log ++ _) = _
-    rw [consume_append, h.cons]
-    by_cases hcl : s.closing = true
-    · rw [consume_closed c _ _ (by simpa using hcl)]
-    · have hcl' : s.closing = false := by cases hh : s.closing <;> simp_all
-      simp [Core.consume, hcl']
+theorem sndInv_begin (c : Cipher) (hc : CipherOk c) (size : Nat) (hs : 1 ≤ size) (start : Nat) (s : Sender)
+    (m : Bytes) (h : SndInv c start s) : SndInv c start (s.begin size m) := by
+  unfold Sender.begin
+  by_cases hg : (s.closing || !s.pending.isEmpty) = true
+  · simpa [hg] using h
+  · have hg' := bool_false_of_not_true hg
+    simp only [Bool.or_eq_false_iff, Bool.not_eq_false'] at hg'
+    have hcl' : s.closing = false := hg'.1
+    have hp : s.pending = [] := by simpa using hg'.2
+    simp only [hg, Bool.false_eq_true, if_false]
+    refine ⟨h.ids, h.next, fun f hf => (split_sizes size hs m f hf).1, ?_, ?_⟩
+    · intro _
+      show Core.consume c core0 (s.log ++ wiresOf c s.nextId s.encPos (split size m)) = _
+      rw [consume_append, sndInv_cons h hp (Or.inl hcl'), hcl']
+      rw [consume_wiresOf c hc _ _ _ _ (fun f hf => (split_sizes size hs m f hf).1)]
+      rw [split_absorb size hs m]
+      by_cases hm : m.isEmpty = true <;> simp [hm]
+    · intro hcl; rw [hcl'] at hcl; cases hcl
 
-theorem sndInv_disconnect (c : Cipher) (start : Nat) (s : Sender) (h : SndInv c start s) :
-    SndInv c start s.disconnect := by
-  unfold Sender.disconnect
-  by_cases hcl : s.closing = true
-  · simpa [hcl] using h
-  · have hcl' : s.closing = false := by cases hh : s.closing <;> simp_all
-    simp only [hcl, Bool.false_eq_true, if_false]
-    refine ⟨?_, ?_, ?_⟩
+theorem sndInv_frag (c : Cipher) (start : Nat) (s : Sender) (h : SndInv c start s) : SndInv c start (s.frag c) := by
+  unfold Sender.frag
+  cases hp : s.pending with
+  | nil => simpa [hp] using h
+  | cons f fs =>
+    simp only []
+    refine ⟨?_, ?_, ?_, ?_, ?_⟩
     · apply ids_append h.ids
       intro k hk
       simp at hk; subst hk
       simp [h.next]
     · simp only [List.length_append, List.length_cons, List.length_nil]
       rw [h.next]; unfold seqNext idOf; omega
-    · show Core.consume c core0 (s.log ++ _) = _
-      rw [consume_append, h.cons, hcl']
-      simp [Core.consume]
+    · intro g hg; exact h.frs g (by rw [hp]; exact List.mem_cons_of_mem _ hg)
+    · intro hcl
+      have hl := h.live hcl
+      rw [hp] at hl
+      simp only [wiresOf, wiresLen] at hl
+      simp only [List.append_assoc, List.cons_append, List.nil_append]
+      rw [hl]; simp [Nat.add_assoc]
+    · intro hcl
+      obtain ⟨h1, h2, h3⟩ := h.dead hcl
+      have hcons : Core.consume c core0 (s.log ++ [⟨s.nextId, Kind.data f.fragId, if f.data.isEmpty then f.data else c.enc s.encPos f.data⟩]) =
+          Core.consume c core0 s.log := by
+        rw [consume_append, consume_closed c _ _ h1]
+      rw [hcons]
+      refine ⟨h1, h2, fun hcn => ?_⟩
+      have := (h3 hcn).1
+      rw [hp] at this; cases this
+
+theorem sndInv_ping (c : Cipher) (start : Nat) (s : Sender) (h : SndInv c start s) : SndInv c start s.ping := by
+  unfold Sender.ping
+  have hcons : Core.consume c core0 (s.log ++ [⟨s.nextId, .ping, []⟩]) = Core.consume c core0 s.log := by
+    rw [consume_append, consume_ping]
+  refine ⟨?_, ?_, h.frs, ?_, ?_⟩
+  · apply ids_append h.ids
+    intro k hk
+    simp at hk; subst hk
+    simp [h.next]
+  · simp only [List.length_append, List.length_cons, List.length_nil]
+    rw [h.next]; unfold seqNext idOf; omega
+  · intro hcl
+    have hl := h.live hcl
+    show Core.consume c core0 ((s.log ++ [⟨s.nextId, .ping, []⟩]) ++ wiresOf c (seqNext s.nextId) s.encPos s.pending) = _
+    rw [consume_append, hcons, consume_wiresOf_id c _ (seqNext s.nextId) s.nextId, ← consume_append, hl,
+      wiresLen_wiresOf_id c _ (seqNext s.nextId) s.nextId]
+  · intro hcl
+    show (Core.consume c core0 (s.log ++ [⟨s.nextId, .ping, []⟩])).closed = true ∧ _
+    rw [hcons]; exact h.dead hcl
+
+theorem sndInv_disconnect (c : Cipher) (start : Nat) (s : Sender) (h : SndInv c start s) :
+    SndInv c start s.disconnect := by
+  unfold Sender.disconnect
+  by_cases hcl : s.closing = true
+  · simpa [hcl] using h
+  · have hcl' : s.closing = false := bool_false_of_not_true hcl
+    simp only [hcl, Bool.false_eq_true, if_false]
+    have hopen := sndInv_log_open h hcl'
+    have hcons : Core.consume c core0 (s.log ++ [⟨s.nextId, .disconnect, []⟩]) =
+        { Core.consume c core0 s.log with closed := true } := by
+      rw [consume_append]; simp [Core.consume, hopen]
+    refine ⟨?_, ?_, h.frs, ?_, ?_⟩
+    · apply ids_append h.ids
+      intro k hk
+      simp at hk; subst hk
+      simp [h.next]
+    · simp only [List.length_append, List.length_cons, List.length_nil]
+      rw [h.next]; unfold seqNext idOf; omega
+    · intro hc; cases hc
+    · intro _
+      show (Core.consume c core0 (s.log ++ [⟨s.nextId, .disconnect, []⟩])).closed = true ∧ _
+      rw [hcons]
+      refine ⟨rfl, sndInv_out h, fun hcn => ?_⟩
+      have hp : s.pending = [] := by simpa using hcn
+      refine ⟨hp, ?_⟩
+      rw [sndInv_cons h hp (Or.inl hcl'), hcl']
 
 /-- invariant of the receiver relative to the sender's log -/
 structure RcvInv (c : Cipher) (start : Nat) (ch : Chan) : Prop where
@@ -265,6 +404,8 @@ theorem inv_run (c : Cipher) (hc : CipherOk c) (size : Nat) (hsz : 1 ≤ size) (
     apply ih _ ?_ ?_ hrest
     · cases op with
       | send m => exact sndInv_send c hc size hsz start ch.s m hs
+      | begin m => exact sndInv_begin c hc size hsz start ch.s m hs
+      | frag => exact sndInv_frag c start ch.s hs
       | ping => exact sndInv_ping c start ch.s hs
       | disconnect => exact sndInv_disconnect c start ch.s hs
       | arrive j =>
@@ -273,10 +414,22 @@ theorem inv_run (c : Cipher) (hc : CipherOk c) (size : Nat) (hsz : 1 ≤ size) (
     · cases op with
       | send m =>
         simp only [step]
-        by_cases hcl : ch.s.closing = true
+        by_cases hcl : (ch.s.closing || !ch.s.pending.isEmpty) = true
         · have : ch.s.send c size m = ch.s := by simp [Sender.send, hcl]
           rw [this]; exact hr
         · exact rcvInv_grow c start ch _ (wiresOf c ch.s.nextId ch.s.encPos (split size m)) (by simp [Sender.send, hcl]) hr
+      | begin m =>
+        simp only [step]
+        exact rcvInv_grow c start ch _ [] (by unfold Sender.begin; split <;> simp) hr
+      | frag =>
+        simp only [step]
+        cases hp : ch.s.pending with
+        | nil =>
+          have : ch.s.frag c = ch.s := by simp [Sender.frag, hp]
+          rw [this]; exact hr
+        | cons f fs =>
+          exact rcvInv_grow c start ch _ [⟨ch.s.nextId, .data f.fragId, if f.data.isEmpty then f.data else c.enc ch.s.encPos f.data⟩]
+            (by simp [Sender.frag, hp]) hr
       | ping =>
         simp only [step]
         exact rcvInv_grow c start ch _ [⟨ch.s.nextId, .ping, []⟩] (by simp [Sender.ping]) hr
@@ -304,12 +457,49 @@ theorem inv_run (c : Cipher) (hc : CipherOk c) (size : Nat) (hsz : 1 ≤ size) (
 
 theorem inv_init (c : Cipher) (start : Nat) (h : start < 65536) :
     SndInv c start (init start).s ∧ RcvInv c start (init start) := by
-  refine ⟨⟨?_, ?_, ?_⟩, ⟨?_, ?_, ?_⟩⟩
+  refine ⟨⟨?_, ?_, ?_, ?_, ?_⟩, ⟨?_, ?_, ?_⟩⟩
   · intro j h; simp [init] at h
   · simp [init, idOf]; omega
-  · simp [init, Core.consume, core0]
+  · intro f hf; simp [init] at hf
+  · intro _; simp [init, Core.consume, core0, wiresOf, wiresLen]
+  · intro h; simp [init] at h
   · simp [init]
   · intro _; exact sinv_init _ start h
   · simp [init, Core.consume]
+
+/-- `n` turns of the fragment loop -/
+def fragN (c : Cipher) : Nat → Sender → Sender
+  | 0, s => s
+  | n + 1, s => fragN c n (s.frag c)
+
+theorem fragN_all (c : Cipher) : ∀ (fs : List Frag) (s : Sender), s.pending = fs →
+    fragN c fs.length s =
+      { s with nextId := iterSeq fs.length s.nextId, encPos := s.encPos + wiresLen (wiresOf c s.nextId s.encPos fs),
+               log := s.log ++ wiresOf c s.nextId s.encPos fs, pending := [] } := by
+  intro fs
+  induction fs with
+  | nil => intro s hp; cases s; simp_all [fragN, iterSeq, wiresOf, wiresLen]
+  | cons f fs ih =>
+    intro s hp
+    have hfr : (s.frag c).pending = fs := by simp [Sender.frag, hp]
+    simp only [List.length_cons, fragN]
+    rw [ih _ hfr]
+    simp [Sender.frag, hp, iterSeq, wiresOf, wiresLen, Nat.add_assoc]
+
+/-- **the one-step `send` is `begin` followed by one `frag` per fragment** (on an open connection with no other `send` of
+    the substream in progress) -/
+theorem send_eq_begin_frags (c : Cipher) (size : Nat) (s : Sender) (m : Bytes) (hcl : s.closing = false) (hp : s.pending = []) :
+    s.send c size m = fragN c (split size m).length (s.begin size m) := by
+  have hb : (s.begin size m).pending = split size m := by simp [Sender.begin, hcl, hp]
+  rw [fragN_all c _ _ hb]
+  simp [Sender.send, Sender.begin, hcl, hp, wiresOf_length]
+
+/-- **delivered is a prefix of sent**, in every state that satisfies the two invariants -/
+theorem delivered_prefix_sent (c : Cipher) (start : Nat) (ch : Chan) (hS : SndInv c start ch.s) (hR : RcvInv c start ch) :
+    ch.r.core.reasm.out <+: ch.s.sent := by
+  have hlog : ch.s.log = ch.s.log.take ch.r.nrel ++ ch.s.log.drop ch.r.nrel := (List.take_append_drop _ _).symm
+  have h1 := sndInv_out hS
+  rw [hlog, consume_append, ← hR.core] at h1
+  exact (out_prefix c (ch.s.log.drop ch.r.nrel) ch.r.core).trans h1
 
 end Nx.Chan
